@@ -397,3 +397,36 @@ Proof.
   - destruct (utxo_node_roundtrip zero_utxo u Hu) as (j & Ej & Uj). destruct IH as (js & Ejs & Ujs).
     rewrite Ej, Ejs. cbn [jbind]. eexists; split; [reflexivity|]. cbn [jmapM]. rewrite Uj, Ujs. reflexivity.
 Qed.
+
+(** * the one shape on which the tx round trip fails (in both dialects): no inputs, no outputs and
+    locktime bytes 00 00 00 EF - the standard serialisation then reads as the extended-format
+    marker, so the hex shortcut of the unmarshal half runs out of input.  The hypothesis
+    [~ ambiguous] of the round-trip theorems cannot be dropped. *)
+Definition ambiguous_gtx : gtx := mkGTx 1 [] [] 4009754624.
+
+Theorem tx_json_roundtrip_unrestricted_refuted :
+  exists g, wf_gtx g /\
+    (exists j, marshal_tx g = JOk j /\ unmarshal_tx (mkGTx 0 [] [] 0) j = JErr) /\
+    (forall info, exists j, node_marshal_tx info g = JOk j /\ node_unmarshal_tx new_tx j = JErr).
+Proof.
+  exists ambiguous_gtx. split; [|split].
+  - split; [constructor|]. unfold wf_tx, plain_tx, ambiguous_gtx; cbn.
+    repeat split; try reflexivity; constructor.
+  - eexists. split; [vm_compute; reflexivity|vm_compute; reflexivity].
+  - intros info. eexists. split; [vm_compute; reflexivity|vm_compute; reflexivity].
+Qed.
+
+(** non-vacuity: an unsigned transaction as tx.From leaves it (nil unlocking script) is well-formed
+    and is not the ambiguous shape *)
+Definition unsigned_gtx : gtx :=
+  mkGTx 1 [mkGInput (repeat_byte 32 xab) 0 None 4294967295 5000 (Some [x76; xa9])]
+          [mkGOutput 4000 (Some [x76; xa9; x14]); mkGOutput 3 (Some [x6a])] 0.
+Lemma unsigned_gtx_ok : wf_gtx unsigned_gtx /\ ~ ambiguous (plain_tx unsigned_gtx).
+Proof.
+  split.
+  - split.
+    + repeat constructor; unfold wf_goutput; cbn; discriminate.
+    + unfold wf_tx, plain_tx, unsigned_gtx; cbn.
+      repeat split; try reflexivity; repeat constructor; unfold wf_script, lenN; cbn; reflexivity.
+  - intros (H & _). discriminate H.
+Qed.
